@@ -41,10 +41,11 @@ Proof.
       destruct (store_call s1) as [s2 failed] eqn:Esc.
       assert (Hf : st_facts s2 = st_facts s1) by (pose proof (store_call_facts s1) as H; rewrite Esc in H; exact H).
       destruct failed; cbn [fst]; unfold nfacts in *; cbn [st_facts set_store]; rewrite Hf; exact Hl.
-  - destruct (store_call s) as [s1 failed] eqn:Esc.
+  - destruct (add_hook_err s fact); cbn [fst]; [lia|].
+    destruct (store_call s) as [s1 failed] eqn:Esc.
     assert (Hf : st_facts s1 = st_facts s) by (pose proof (store_call_facts s) as H; rewrite Esc in H; exact H).
     destruct failed; cbn [fst]; [unfold nfacts; rewrite Hf; lia|].
-    destruct (add_hook_err s fact); cbn [fst]; unfold nfacts; cbn [st_facts set_store set_facts]; rewrite ?Hf; [lia|].
+    unfold nfacts; cbn [st_facts set_store set_facts]; rewrite ?Hf.
     apply ainsert_length.
 Qed.
 
